@@ -248,10 +248,13 @@ func runC09(c c09Case, st *hx.Stats) error {
 		off, n := resolve(op)
 		switch op.Kind {
 		case "readat":
-			if off < 0 {
-				off = 0 // negative positional offsets are outside the property's stated domain
+			if off < 0 && off < -3000 {
+				off = 0
 			}
-			ntKey("readat", off, n)
+			// (small negative offsets stay: the answer to them is an error, never a panic)
+			if off >= 0 {
+				ntKey("readat", off, n)
+			}
 			if err := c09CheckReadAt(viso, img, off, n); err != nil {
 				return fmt.Errorf("op %d: %w", i, err)
 			}
